@@ -427,6 +427,31 @@ impl MRv {
     }
 }
 
+/// canonical text of a bare `CrdtValue` (the crdt part of `MRv::show`)
+pub fn show_crdt(c: &CrdtValue) -> String {
+    let rv = ReplicatedValue { crdt: c.clone(), vector_clock: None, expiry_ms: None, timestamp: LamportClock { time: 0, replica_id: ReplicaId(0) }, replication_factor: None };
+    let s = MRv::from_real(&rv).show();
+    s.strip_suffix(" - - 0 0 -").unwrap_or(&s).to_string()
+}
+
+pub fn smap_text(m: &BTreeMap<u64, u64>) -> String {
+    let mut s = m.len().to_string();
+    for (k, v) in m {
+        s.push_str(&format!(" {} {}", k, v));
+    }
+    s
+}
+
+/// a real `VectorClock` from a map (the field is crate-private: through serde) and back
+pub fn vclock_from(m: &BTreeMap<u64, u64>) -> Option<VectorClock> {
+    serde_json::from_value::<VectorClock>(json!({"clocks": jmap(m)})).ok()
+}
+
+pub fn vclock_map(v: &VectorClock) -> Option<BTreeMap<u64, u64>> {
+    let j = serde_json::to_value(v).ok()?;
+    j["clocks"].as_object()?.iter().map(|(k, v)| Some((k.parse().ok()?, v.as_u64()?))).collect()
+}
+
 pub fn show_real(rv: &ReplicatedValue) -> String {
     MRv::from_real(rv).show()
 }
